@@ -30,7 +30,12 @@ func init() {
 			return err
 		}
 		e.rep.Rule += "; function attachment: methods with 1-6 `map [SRC] FIELD | FUNC` / `default FUNC` / ignore lines in random order (several functions, the same identifiers in a second package, a later map line without function for the same field, siblings): function of every field and the constructor after comments.ParseDocs + config.Parse vs Gv.Settings.parseMethodLines"
-		return runFuncAttach(e)
+		if err := runFuncAttach(e); err != nil {
+			return err
+		}
+		// which parameters of a custom function are context (and therefore never a conversion source) depends on the pattern
+		// in effect where the function is named: the consumers campaign, shared with C12 / C14
+		return runConsumers(e)
 	}
 }
 
